@@ -212,8 +212,6 @@ def run(ctx):
     leaves = 0
     n_budget = sum(1 for o in res if o.get("budget"))
     ctx.cov["forests_not_judged_outcome_tree_over_budget"] = n_budget
-    if n_budget > 0.25 * len(res):
-        raise runner.HarnessError("%d of %d outcome trees exceeded the leaf budget" % (n_budget, len(res)))
     for (fj, bs), out in zip(items, res):
         leaves += out["leaves"]
         if out["orders"] > 1:
@@ -235,6 +233,8 @@ def run(ctx):
             fmin = shrink(f0, pred)
             ctx.violation(key, detail + " on " + models.canon_str(models.canon(fmin)),
                           {"forest": forest_json(fmin), "build_seed": bs, "key": key})
+    if n_budget > 0.25 * len(res):
+        ctx.cannot_judge("%d of %d outcome trees exceeded the leaf budget" % (n_budget, len(res)))
     r2 = random.Random(ctx.sub("big"))
     big = []
     for i in range(60 if quick else 1500):
